@@ -92,6 +92,7 @@ def main(argv):
     p.add_argument("--config", default="default")
     p.add_argument("--crate", default="jmespath")
     p = sub.add_parser("selftest")
+    p.add_argument("pattern", nargs="?")
     args = ap.parse_args(argv)
     try:
         if args.cmd == "setup":
@@ -113,7 +114,7 @@ def main(argv):
         if args.cmd == "selftest":
             from . import selftest
 
-            return selftest.main()
+            return selftest.main(args.pattern)
     except build.BuildError as e:
         print(f"BUILD-ERROR: {e}", file=sys.stderr)
         return 2
